@@ -40,6 +40,14 @@ func fieldName(name string) string {
 	return strings.Title(ret)
 }
 
+// An inline fragment without a type condition applies to the enclosing type.
+func (s *generateState) inlineFragmentType(enclosing schema.Type, frag *ast.InlineFragment) schema.NamedType {
+	if frag.TypeCondition == nil {
+		return enclosing.(schema.NamedType)
+	}
+	return s.schema.NamedTypes()[frag.TypeCondition.Name.Name]
+}
+
 func (s *generateState) generateType(t schema.Type, selections []ast.Selection, nonNull bool, fragTypes map[string]string) (string, error) {
 	if t, ok := t.(*schema.NonNullType); ok {
 		return s.generateType(t.Type, selections, true, fragTypes)
@@ -113,6 +121,9 @@ func (s *generateState) generateType(t schema.Type, selections []ast.Selection, 
 		// type => field names
 		typeConditions := map[string][]string{}
 
+		// types for which inline fragments have been generated
+		inlineFragmentTypes := map[string]struct{}{}
+
 		for _, sel := range selections {
 			switch sel := sel.(type) {
 			case *ast.FragmentSpread:
@@ -130,12 +141,21 @@ func (s *generateState) generateType(t schema.Type, selections []ast.Selection, 
 						return "", fmt.Errorf("__typename is required by inline fragment")
 					}
 				}
-				// An inline fragment without a type condition applies to the enclosing type.
-				cond := t.(schema.NamedType)
-				if sel.TypeCondition != nil {
-					cond = s.schema.NamedTypes()[sel.TypeCondition.Name.Name]
+				cond := s.inlineFragmentType(t, sel)
+				if _, ok := inlineFragmentTypes[cond.TypeName()]; ok {
+					// already generated together with the first inline fragment on this type
+					continue
 				}
-				gen, err := s.generateType(cond, sel.SelectionSet.Selections, false, fragTypes)
+				inlineFragmentTypes[cond.TypeName()] = struct{}{}
+				// All inline fragments on the same type share one struct field, so their
+				// selections are generated together.
+				var merged []ast.Selection
+				for _, other := range selections {
+					if other, ok := other.(*ast.InlineFragment); ok && s.inlineFragmentType(t, other).TypeName() == cond.TypeName() {
+						merged = append(merged, other.SelectionSet.Selections...)
+					}
+				}
+				gen, err := s.generateType(cond, merged, false, fragTypes)
 				if err != nil {
 					return "", err
 				}
